@@ -43,19 +43,20 @@ prop('C03',
      title='Adding and subtracting elapsed time is exact or refused, never wrapped',
      verus=['datetime', 'date', 'iters'],
      twin=['datetime', 'date', 'iters', 'zoned'],
-     uncovered=['DateTime<Tz>::signed_duration_since (impl Borrow argument) and the operator impls of DateTime<Tz>',
-                'AddAssign/SubAssign impls', 'Add/Sub<core::time::Duration> impls (std Duration conversion)'],
+     uncovered=['Add/Sub<core::time::Duration> impls of the date and date-time types (std Duration conversion)', 'Add/Sub<Days>, <Months> on DateTime<Tz> (C04/C08)'],
      text='Verus proves NaiveDateTime::checked_add_signed/checked_sub_signed/signed_duration_since (exact instant or refusal exactly when not representable), '
           'NaiveDate::add_days/checked_add_days/checked_sub_days/checked_add_signed/checked_sub_signed/signed_duration_since for every u64/i32/TimeDelta argument, '
           'the operator forms (= checked form + expect), the day/week iterators (step 1/7, end at the limit, exact size_hint), and the zone-aware forms DateTime<Tz>::checked_add_signed / '
           'checked_sub_signed / with_timezone / to_utc generically in Tz (same instants whatever the offset: the provided method TimeZone::from_utc_datetime keeps the UTC field, proved on its default body; '
-          'a scan checks that no impl overrides it) on the real text.')
+          'a scan checks that no impl overrides it) on the real text. Also proved: the operator forms on every type (NaiveDate +/- TimeDelta, +/- Days, date - date; '
+          'NaiveDateTime +/- TimeDelta; DateTime<Tz> +/- TimeDelta, DateTime<Tz> - DateTime<Tz>, DateTime<Tz>::signed_duration_since across two zones) as checked form + expect with the documented '
+          'panic condition as precondition, and every AddAssign/SubAssign<TimeDelta>.')
 
 prop('C07',
      title='Time-of-day arithmetic wraps by whole days and honours leap-second operands',
      verus=['time', 'datetime'],
      twin=['time', 'datetime'],
-     uncovered=['Add/Sub<core::time::Duration> for NaiveTime (std Duration conversion)', 'AddAssign/SubAssign impls', 'deprecated panicking constructors from_hms* (expect wrappers)'],
+     uncovered=['AddAssign/SubAssign<core::time::Duration>', 'deprecated panicking constructors from_hms* (expect wrappers)'],
      text='Verus proves every NaiveTime constructor (accepted exactly for h<24, m<60, s<60, nano<1e9 or <2e9 on second 59), accessor, single-field replacement, '
           'overflowing_add_signed/sub_signed against the documented leap-line model (stay in / leave / skip the leap second as if it were the only one), '
           'signed_duration_since on the joint leap line (antisymmetric), offset shifts, and the date-time forms with the carry applied to the date.')
@@ -202,13 +203,15 @@ prop('C17',
      title='Rounding and truncation land on the right multiple',
      verus=['round'],
      twin=['round'],
-     uncovered=['impl DurationRound for DateTime<Tz> (delegation through naive_local and the generic functions at T = DateTime<Tz>)',
+     uncovered=['DurationRound for DateTime<Tz> when the wall-clock reading lies in the one-day headroom outside the nominal range (twin only)',
                 'SubsecRound at types other than NaiveDateTime; leap-second inputs (only absence of overflow is proved for them)',
                 'Display for RoundingError'],
      text='Verus proves duration_trunc/duration_round/duration_round_up (generic text monomorphised at NaiveDateTime) against floor / ceiling / nearest-with-ties-up '
           'multiples of the span counted from the Unix epoch, the exact error cases (non-positive span, span or timestamp not expressible in i64 nanoseconds), '
           'no overflow of the final +/- (the i64 window lies inside the date range), span_for_digits = 10^(9-min(9,d)) for every u16, round_subsecs/trunc_subsecs '
-          'with carry into the next second; idempotence / less-than-one-span / fixed points as lemmas.')
+          'with carry into the next second; idempotence / less-than-one-span / fixed points as lemmas. The same three generic functions are proved a second time at T = DateTime<Tz>, '
+          'generically in the zone (the stamp is taken on the wall-clock reading utc + offset, the instant moves by exactly the rounding distance, `original +/- delta` cannot overflow), '
+          'and so is impl DurationRound for DateTime<Tz> over DateTime::overflowing_naive_local (Offset::fix through its type-invariant contract |offset| < 24 h).')
 
 prop('C19',
      title='Weekday, Month and weekday-set algebra is consistent',
